@@ -13,7 +13,7 @@ static const int L0s[] = {0, 1, 7, 8, 9, 31, 32, 33, 100, 255, 256, 65536};
 #define NL0 (mc_tier ? 12 : 10)
 static const int Ns[] = {0, 1, 7, 8, 9, 15, 16, 17, 40, 100, 255, 256, 257, 65535, 65536, 70000};
 #define NN (mc_tier ? 16 : 12)
-#define NPAT 3
+#define NPAT 4
 
 static unsigned char pat_byte(int p, int i)
 {
@@ -21,7 +21,9 @@ static unsigned char pat_byte(int p, int i)
 	{
 	case 0: return (unsigned char)('A' + i % 26);
 	case 1: return i % 3 == 1 ? 0 : i % 3 == 2 ? 0xFF : 'z';
-	default: return (unsigned char)(0x80 + i % 64);
+	case 2: return (unsigned char)(0x80 + i % 64);
+	/* agrees with pattern 1 up to and including its first NUL, differs after it */
+	default: return i == 0 ? 'z' : i == 1 ? 0 : (unsigned char)('q' + i % 5);
 	}
 }
 static void fill(unsigned char *b, int p, int n)
